@@ -492,3 +492,5 @@ func JSON(v any) string {
 }
 
 const EX = "http://ex.org/"
+
+func sortStrings(s []string) { sort.Strings(s) }
